@@ -4,7 +4,7 @@
     Run with the target directory as working directory. *)
 Require Import ExtrOcamlBasic.
 From Coq Require Import List NArith ZArith.
-From PQ Require Import Bytes BitExpr Bitpack Varint RleSpec Rle Schema Dremel Plain Stats MetaTypes Thrift Meta Writer FileSpec Io Reader Introspect.
+From PQ Require Import Bytes BitExpr Bitpack Varint RleSpec Rle Schema Dremel Plain Stats MetaTypes Thrift Meta Writer FileSpec Io Reader Introspect Foreign Parse Structs.
 
 Extraction "model.ml"
   Bitpack.pack Bitpack.unpack Bitpack.spec_pack
@@ -15,4 +15,6 @@ Extraction "model.ml"
   Writer.run_history Writer.run_fault Writer.file_bytes Writer.nonempty_batches
   FileSpec.check_file FileSpec.view_records FileSpec.chunk_entries
   Io.mk_src Reader.read_all_src
-  Introspect.read_metadata Introspect.page_headers Introspect.page_headers_at_offset.
+  Introspect.read_metadata Introspect.page_headers Introspect.page_headers_at_offset
+  Foreign.foreign_file Foreign.segment
+  Parse.parse_root Parse.shape_of Structs.struct_of_schema.
